@@ -101,7 +101,15 @@ func boundary(g int32, r *prng.R) {
 }
 
 // run executes one job; g < 0 means the sequential reference run (no yields).
-func run(j job, g int32, yseed uint64) (out []byte, err error) {
+// prebuilt is a writer that the main goroutine created before the round started.
+type prebuilt struct {
+	w    io.WriteCloser
+	sink *mon.Sink
+}
+
+func run(j job, g int32, yseed uint64) (out []byte, err error) { return runPre(j, g, yseed, nil) }
+
+func runPre(j job, g int32, yseed uint64, pre *prebuilt) (out []byte, err error) {
 	yr := prng.New(yseed, uint64(g)+7)
 	yield := func() {}
 	if g >= 0 {
@@ -125,7 +133,13 @@ func run(j job, g int32, yseed uint64) (out []byte, err error) {
 			return nil, disturbWriter(j, props, data, sink)
 		}
 		var w io.WriteCloser
-		switch j.Kind {
+		kind := j.Kind
+		if pre != nil {
+			w, sink, kind = pre.w, pre.sink, "prebuilt"
+			sink.Yield = yield
+		}
+		switch kind {
+		case "prebuilt":
 		case "xzW":
 			w, err = xz.WriterConfig{Properties: props, DictCap: j.Dict, BlockSize: j.Block, CheckSum: j.Check, Matcher: lzma.MatchAlgorithm(j.Matcher)}.NewWriter(sink)
 		case "lzmaW":
@@ -188,6 +202,8 @@ func run(j job, g int32, yseed uint64) (out []byte, err error) {
 		return io.ReadAll(r)
 	}
 }
+
+var reuseProps lzma.Properties // retuned by main between NewWriter calls (see main)
 
 var propsTable [9][5][5]*lzma.Properties
 
@@ -361,10 +377,35 @@ func main() {
 		start := make(chan struct{})
 		for i := range jobs {
 			wg.Add(1)
+			// in every second round the writers are created here, one after the other, from a
+			// configuration whose Properties variable is reused and retuned for each of them
+			// (open all outputs, then write): a writer must have taken what it needs from the
+			// configuration when NewWriter returned
+			var pre *prebuilt
+			if j := jobs[i]; round%2 == 1 && j.Disturb == 0 && (j.Kind == "xzW" || j.Kind == "lzmaW" || j.Kind == "lzma2W") {
+				reuseProps = lzma.Properties{LC: j.LC, LP: j.LP, PB: j.PB}
+				if j.Kind == "lzmaW" && j.LC+j.LP > 4 {
+					reuseProps = lzma.Properties{LC: 3, LP: 0, PB: 2}
+				}
+				pp := &reuseProps
+				if j.Kind == "xzW" {
+					// xz.Writer keeps the pointer and reads it again whenever it starts a block:
+					// with a retuned variable its later blocks legitimately use the new values
+					// (each block states its own properties, the stream stays valid).  Byte-equal
+					// output can only be demanded when the value it points to stays unchanged.
+					own := reuseProps
+					pp = &own
+				}
+				sk := mon.NewSink()
+				if w, err := newWriter(j, pp, sk); err == nil {
+					pre = &prebuilt{w, sk}
+					res.Kinds["writers_created_before_the_round"]++
+				}
+			}
 			go func(i int) {
 				defer wg.Done()
 				<-start
-				outs[i], errs[i] = run(jobs[i], int32(i), *seed+uint64(round))
+				outs[i], errs[i] = runPre(jobs[i], int32(i), *seed+uint64(round), pre)
 			}(i)
 		}
 		close(start)
